@@ -72,6 +72,27 @@ def propagate_guarded(g, raise_node):
     return p is None
 
 
+_LOCAL_EXC = ("SystemExit", "KeyboardInterrupt")
+
+
+def propagate_exact(g, raise_node):
+    """None when every path from a handler entry to the bare raise takes the positive edge of an exact class test
+    (`t is SystemExit`, `type(v) == KeyboardInterrupt`, `t in (SystemExit, ..)`); otherwise "subclass" when such a path passes
+    an isinstance/issubclass test on those classes (exceptions rebuilt from the wire are subclasses), else "unknown" """
+    def mentions(e):
+        return any(isinstance(x, ast.Name) and x.id in _LOCAL_EXC for x in ast.walk(e))
+    exact = {n.id for n in g.live if n.kind == "test" and isinstance(n.ast, ast.Compare) and len(n.ast.ops) == 1 and
+             isinstance(n.ast.ops[0], (ast.Is, ast.Eq, ast.In)) and mentions(n.ast)}
+    loose = {n.id for n in g.live if n.kind == "test" and isinstance(n.ast, ast.Call) and
+             A.call_name(n.ast) in ("isinstance", "issubclass") and mentions(n.ast)}
+    entries = [n for n in g.live if n.kind == "except"]
+    p = Q.find_path_ef(entries, lambda x: x is raise_node,
+                       lambda a, b, l: l != "exc" and not (a.id in exact and l == "true"))
+    if p is None:
+        return None
+    return "subclass" if any(getattr(x, "id", None) in loose for x in p) else "unknown"
+
+
 def run(ctx, rep):
     rep.rule("R08.1", "exactly one completed response send on every normal path of _dispatch_request, bearing the "
                       "unmodified request seq; handler invoked at most once; MSG_REPLY only on the no-exception continuation")
@@ -212,6 +233,15 @@ def run(ctx, rep):
                    if okx else
                    "a re-raise leaves the request unanswered without being guarded by a propagate_*_locally switch",
                    ctx.loc(n))
+            if okx:
+                ex = propagate_exact(g, n)
+                if ex == "unknown":
+                    rep.undecided("R08.1: cannot identify the exception-class test guarding the local re-raise in _dispatch_request")
+                else:
+                    rep.ob("R08.1", "_dispatch_request: the local propagation applies to exactly the configured exception class",
+                           ex is None, "the re-raise is guarded by an identity test on SystemExit/KeyboardInterrupt itself" if ex is None
+                           else "the re-raise is guarded by isinstance/issubclass: an exception rebuilt from a peer's MSG_EXCEPTION "
+                                "(a generated subclass) is re-raised out of serve() instead of being answered", ctx.loc(n))
             continue
     # consumption of peer data (destructuring, unboxing, handler call) lies inside the catch-all try
     def raises_peer(node_ast, kind):
@@ -571,14 +601,14 @@ def run(ctx, rep):
         rep.floor("R08.5", "users of _get_seq_id", len(users), 1)
 
     # ------------------------------------------------------------------ R08.6
-    K.share(ctx, rep, "c12", lambda o: o.rule in ("R12.1", "R12.2", "R12.3", "R12.6"), "R08.6", floor=8)
+    K.share(ctx, rep, "c12", lambda o: o.rule in ("R12.1", "R12.2", "R12.3", "R12.5", "R12.6", "R12.7"), "R08.6", floor=8)
     K.share(ctx, rep, "c09", lambda o: o.rule in ("R09.4", "R09.5"), "R08.7", floor=6)
     K.connection_state(ctx, rep, "R08.8", ["_request_callbacks", "_seqcounter"])
     K.share(ctx, rep, "c01", lambda o: o.rule == "R01.2" and "exactly once" in o.key, "R08.9", floor=1)
     K.share(ctx, rep, "c01", lambda o: o.rule == "R01.4" and "callback registered for the request" in o.key, "R08.8", floor=1)
     from . import hygiene as H
     H.private_state(ctx, rep, "R08.10", "rpyc.core.async_.AsyncResult")
-    K.share(ctx, rep, "c15", lambda o: o.rule == "R15.1" or (o.rule == "R15.4" and "AsyncResult.wait" in o.key), "R08.11", floor=3)
+    K.share(ctx, rep, "c15", lambda o: o.rule in ("R15.1", "R15.5") or (o.rule == "R15.4" and "AsyncResult.wait" in o.key), "R08.11", floor=3)
     # a message that was encoded by a conforming peer decodes: writer/reader agreement of the value codec (a decode failure in
     # _dispatch happens before any request/reply handling - the message is neither executed nor answered)
     K.share(ctx, rep, "c04", lambda o: o.rule in ("R04.3", "R04.6") or (o.rule == "R04.2" and "output buffer" in o.key), "R08.7", floor=20)
